@@ -48,7 +48,7 @@ FNS = [kinds.node, kinds.node2, kinds.posnode, kinds.two, kinds.three, kinds.Bas
        sigs.g_a1_b2_va_k_vk, sigs.g_ab_c_va, sigs.g_abc_d_va_vk,
        kinds.iddef, kinds.iddef_pos, kinds.mutdef]     # defaults that are identity-bearing objects
 LEAVES = [0, 1, -7, 2**70, 1.5, 'a', 'name with space', None, True, (1, 2), (), b'bytes',
-          kinds.Color.RED, kinds.two, kinds.Base, 3 + 4j]
+          kinds.Color.RED, kinds.two, kinds.Base, 3 + 4j, {1, 2}, {'s'}]     # sets: mutable leaves
 KINDS = ['deepcopy', 'pickle', 'deepcopy_with', 'copy', 'copy_with', 'cast',
          'copy_with(equal overrides)', 'deepcopy_with(equal overrides)']
 
